@@ -68,52 +68,53 @@ Theorem C06_mk_sym_orbit : forall k n bks u1 u2 l1 l2,
 Proof. exact mk_sym_orbit. Qed.
 Print Assumptions C06_mk_sym_orbit.
 
-(* Orbit, bra-ket swap (antisymmetric classes): exchanging upper and lower
-   multiplies by bra_ket_sym - provided no two different dummies share a name
-   and, for bra-ket ANTIsymmetry, bra and ket do not hold the same indices
-   (see the two _refuted theorems below). *)
+(* Orbit, bra-ket swap: exchanging upper and lower multiplies by bra_ket_sym
+   (zero stays zero) - provided no two different dummies share a name (see
+   C06_braket_same_name_refuted). *)
 Theorem C06_mk_anti_braket : forall k n bks u l, bks_valid bks = true -> length u = length l ->
-  names_inj (u ++ l) -> (bks = (-1)%Z -> ~ Permutation u l) ->
+  names_inj (u ++ l) ->
   mk_anti k n bks l u = tres_neg (Z.eqb bks (-1)) (mk_anti k n bks u l).
 Proof. exact mk_anti_braket. Qed.
 Print Assumptions C06_mk_anti_braket.
 
 Theorem C06_mk_sym_braket : forall k n bks u l, bks_valid bks = true -> length u = length l ->
-  names_inj (u ++ l) -> (bks = (-1)%Z -> ~ Permutation u l) ->
+  names_inj (u ++ l) ->
   mk_sym k n bks l u = tres_neg (Z.eqb bks (-1)) (mk_sym k n bks u l).
 Proof. exact mk_sym_braket. Qed.
 Print Assumptions C06_mk_sym_braket.
 
-(* The side condition cannot be dropped: the code returns +T^{ij}_{ij} for a
-   bra-ket antisymmetric T although the symmetry forces the value 0 in every
-   model (FINDING C06:braket-antisym-diagonal). *)
-Theorem C06_mk_anti_braket_diag_refuted :
-  exists k n u l, NoDup u /\ NoDup l /\ names_inj (u ++ l) /\ length u = length l /\
-    (exists t, mk_tensor k n (-1) u l = TOk false t /\ mk_tensor k n (-1) l u = TOk false t) /\
-    mk_tensor k n (-1) l u <> tres_neg true (mk_tensor k n (-1) u l) /\
-    (forall S T, sym_respects S T -> two_regular S -> forall r,
-        tens_val S T r (Tens k n (-1) u l) = k0 S).
-Proof. exact mk_anti_braket_diag_refuted. Qed.
-Print Assumptions C06_mk_anti_braket_diag_refuted.
+(* A bra-ket antisymmetric tensor whose bra and ket hold the same indices (in
+   any order) is returned as zero, and zero is its value in every model
+   (before the repair 2521687 the code returned +T^{ij}_{ij}; the harness keeps
+   the probe AntiSymmetricTensor('T',(i,j),(i,j),-1)). *)
+Theorem C06_mk_tensor_braket_diag_zero : forall k n u l, k <> KNonSym -> Permutation u l ->
+  mk_tensor k n (-1) u l = TZero /\
+  (forall S T, sym_respects S T -> two_regular S -> forall r,
+      tens_val S T r (Tens k n (-1) u l) = k0 S).
+Proof. exact mk_tensor_braket_diag_zero. Qed.
+Print Assumptions C06_mk_tensor_braket_diag_zero.
 
-(* ... and with two different dummies of the same name the bra-ket related
-   orderings stay different objects (outside the property's quantifier). *)
+(* The side condition names_inj cannot be dropped: with two different dummies
+   of the same name the bra-ket related orderings stay different objects
+   (outside the property's quantifier). *)
 Theorem C06_braket_same_name_refuted :
   exists k n u l, NoDup (u ++ l) /\ length u = length l /\
     mk_tensor k n 1 l u <> tres_neg false (mk_tensor k n 1 u l).
 Proof. exact braket_same_name_refuted. Qed.
 Print Assumptions C06_braket_same_name_refuted.
 
-(* Zero exactly when forced by a repeated index in an antisymmetric group;
-   SymmetricTensor is never zero. *)
+(* Zero exactly when forced: a repeated index in an antisymmetric group, or
+   bra-ket antisymmetry with the same indices in bra and ket. *)
 Theorem C06_mk_anti_zero_iff : forall k n bks u l,
-  mk_anti k n bks u l = TZero <-> (~ NoDup u \/ ~ NoDup l).
+  mk_anti k n bks u l = TZero <->
+  (~ NoDup u \/ ~ NoDup l \/ (bks = (-1)%Z /\ Permutation u l)).
 Proof. exact mk_anti_zero_iff. Qed.
 Print Assumptions C06_mk_anti_zero_iff.
 
-Theorem C06_mk_sym_never_zero : forall k n bks u l, mk_sym k n bks u l <> TZero.
-Proof. exact mk_sym_never_zero. Qed.
-Print Assumptions C06_mk_sym_never_zero.
+Theorem C06_mk_sym_zero_iff : forall k n bks u l,
+  mk_sym k n bks u l = TZero <-> (bks = (-1)%Z /\ Permutation u l).
+Proof. exact mk_sym_zero_iff. Qed.
+Print Assumptions C06_mk_sym_zero_iff.
 
 (* Separation: two constructions with the same canonical tensor have the same
    class, name and bra-ket symmetry, and index tuples related by a permutation
@@ -188,25 +189,24 @@ Print Assumptions C06_assumptions_untouched.
 
 Theorem C06_assumptions_idempotent : forall (real : bool) syms antis t s t',
   let syms' := if real then "f"%string :: "V"%string :: syms else syms in
-  smem (tname t) syms' && smem (tname t) antis = false ->
-  (real = true -> cc_closed syms' (tname t) /\ cc_closed antis (tname t)) ->
+  (forall m, m = tname t \/ m = real_name (tname t) -> smem m syms' && smem m antis = false) ->
   assume_obj real syms antis t = TOk s t' -> assume_obj real syms antis t' = TOk false t'.
 Proof. exact assume_idempotent. Qed.
 Print Assumptions C06_assumptions_idempotent.
 
-(* without cc_closed: Expr(t1cc^a_i, real=True, sym_tensors=["t1"]) *)
-Theorem C06_assumptions_idempotent_refuted :
-  exists real syms antis t t', assume_obj real syms antis t = TOk false t' /\
-    assume_obj real syms antis t' <> TOk false t'.
-Proof. exact assume_idempotent_refuted. Qed.
-Print Assumptions C06_assumptions_idempotent_refuted.
+(* Expr(t1cc^a_i, real=True, sym_tensors=["t1"]) = t1^i_a with bra_ket_sym 1,
+   stable under re-application (was not idempotent before the repair ca056bd;
+   the harness keeps the probe). *)
+Theorem C06_assumptions_cc_example :
+  let t' := Tens KAmp "t1" 1 [ix_i] [ix_a] in
+  assume_obj true ["t1"%string] [] (Tens KAmp "t1cc" 0 [ix_a] [ix_i]) = TOk false t' /\
+  assume_obj true ["t1"%string] [] t' = TOk false t'.
+Proof. exact assume_cc_example. Qed.
+Print Assumptions C06_assumptions_cc_example.
 
 Theorem C06_assumptions_value : forall (S : Scalar) (T : tmodel S), sym_respects S T ->
   forall r (real : bool) syms antis t,
-  let syms' := if real then "f"%string :: "V"%string :: syms else syms in
-  (smem (tname t) syms' = true -> declared_as S T (tname t) (tbks t) 1) ->
-  (smem (tname t) antis = true -> declared_as S T (tname t) (tbks t) (-1)) ->
-  (real = true -> forall k b u l, tv T KAmp (real_name (tname t)) b u l = tv T k (tname t) b u l) ->
+  model_satisfies S T real syms antis t ->
   match assume_obj real syms antis t with
   | TOk neg t' => tens_val S T r t = kmul S (ksgn neg) (tens_val S T r t')
   | TZero => two_regular S -> tens_val S T r t = k0 S
@@ -231,6 +231,6 @@ Print Assumptions C06_assumptions_value_expr.
 (* The hypotheses are satisfiable together (rationals, a non-trivial model). *)
 Theorem C06_hypotheses_satisfiable :
   sym_respects QcScalar ex_model /\ two_regular QcScalar /\ rng_disjoint (rng ex_model) /\
-  declared_as QcScalar ex_model "f" 0 1.
+  declared_as QcScalar ex_model "f" 1.
 Proof. exact TensorObjProofs.C06_hypotheses_satisfiable. Qed.
 Print Assumptions C06_hypotheses_satisfiable.
